@@ -155,6 +155,7 @@ static void wait_blocked(unit_t *me, int i)
         if (st == ABT_THREAD_STATE_BLOCKED)
             break;
         self_yield(me);
+        usleep(20); /* polling loops must not flood the event log */
     }
 }
 
@@ -222,6 +223,7 @@ static void run_ops(unit_t *me)
                 break;
             case 'D':
                 while (!g_u[i].finished) {
+                    usleep(20);
                     ABT_thread_state st = ABT_THREAD_STATE_READY;
                     if (g_u[i].named == 'N' && g_u[i].created) {
                         ABT_thread_get_state(g_u[i].h, &st);
